@@ -87,6 +87,14 @@ def main(argv):
         rep.undecidable(prop + ".internal", "%s.internal/rule-error/%s/%s" % (prop, type(e).__name__, where), loc="",
                         construct="rule code raised %s: %s" % (type(e).__name__, str(e)[:200]),
                         detail="the analysed code has a shape this rule does not handle; the remaining rules of the check were not run")
+    # premise of every check: the analysed build configurations cover the code (no behaviour hidden behind other cfg predicates;
+    # the `uuid` feature only adds code)
+    try:
+        import cfgscan
+        cfgscan.check(ctx, rep, prop)
+    except F.ExtractError as e:
+        print("NO VERDICT for %s: %s" % (prop, e))
+        return 2
     if tier == "thorough" and getattr(mod, "THOROUGH_SECOND_CONFIG", True) and prop != "C18":
         # thorough = every rule of the property again on the `uuid` feature configuration (the second build
         # configuration of the crate), merged under rule names suffixed with @uuid
